@@ -591,3 +591,275 @@ Proof.
       rewrite (mark_ok "xycoords") by (rewrite Zlen_upd; lia). cbn. now rewrite !Zlen_upd. }
   all: cbn beta; auto; try (intros; contradiction).
 Qed.
+
+(* ================================================================== *)
+(* c_delineate_boundary                                                 *)
+
+From Coq Require Import Sorting.Sorted.
+
+Lemma zinsert_length x l : List.length (zinsert x l) = Datatypes.S (List.length l).
+Proof. induction l; simpl; auto. destruct (x <=? a); simpl; auto. Qed.
+Lemma zsort_length l : List.length (zsort l) = List.length l.
+Proof. induction l; simpl; auto. rewrite zinsert_length; auto. Qed.
+Lemma Zlen_zsort l : Zlen (zsort l) = Zlen l.
+Proof. unfold Zlen; now rewrite zsort_length. Qed.
+
+Lemma zinsert_Forall (P : Z -> Prop) x l : P x -> Forall P l -> Forall P (zinsert x l).
+Proof.
+  intros Hx H; induction H; simpl; auto.
+  destruct (x <=? x0); auto.
+Qed.
+
+Lemma zinsert_sorted x l : StronglySorted Z.le l -> StronglySorted Z.le (zinsert x l).
+Proof.
+  induction 1 as [|a l Hs IH Ha]; simpl.
+  - constructor; auto. constructor.
+  - destruct (x <=? a) eqn:E; zb.
+    + constructor; [constructor; auto|].
+      constructor; auto. eapply Forall_impl; [|exact Ha]. intros; lia.
+    + constructor; auto. apply zinsert_Forall; auto. lia.
+Qed.
+
+Lemma zsort_sorted l : StronglySorted Z.le (zsort l).
+Proof. induction l; simpl; [constructor|apply zinsert_sorted; auto]. Qed.
+
+Lemma sorted_between l : StronglySorted Z.le l -> forall k, (k < List.length l)%nat ->
+  nth 0 l 0 <= nth k l 0 <= nth (List.length l - 1) l 0.
+Proof.
+  induction 1 as [|a l Hs IH Ha]; intros k Hk; simpl in Hk; [lia|].
+  destruct l as [|b l'].
+  - destruct k; simpl in *; try lia.
+  - assert (Hlast : nth (List.length (a :: b :: l') - 1) (a :: b :: l') 0 =
+                    nth (List.length (b :: l') - 1) (b :: l') 0).
+    { simpl. rewrite Nat.sub_0_r. reflexivity. }
+    rewrite Hlast.
+    destruct k as [|k].
+    + cbn [nth]. split; [lia|].
+      assert (Hb := IH O ltac:(simpl; lia)). cbn [nth] in Hb.
+      rewrite Forall_forall in Ha. assert (a <= b) by (apply Ha; left; auto). lia.
+    + change (nth (Datatypes.S k) (a :: b :: l') 0) with (nth k (b :: l') 0).
+      change (nth 0 (a :: b :: l') 0) with a.
+      assert (Hb := IH k ltac:(simpl in *; lia)).
+      rewrite Forall_forall in Ha.
+      assert (a <= nth k (b :: l') 0) by (apply Ha; apply nth_In; simpl in *; lia).
+      lia.
+Qed.
+
+Lemma getnxy_cgood nrows ncols c : 0 < ncols -> 0 <= nrows -> cgood (nrows * ncols) c ->
+  exists nx ny, getnxy ncols c = Ok (nx, ny) /\ -1 <= nx < ncols /\ -1 <= ny < Z.max nrows 1.
+Proof.
+  intros Hc Hr [->|Hv].
+  - unfold getnxy, zmod, zdiv. destruct (ncols =? 0) eqn:E; zb; [lia|]. cbn [bindR].
+    destruct (Z.eq_dec ncols 1) as [->|Hn].
+    + exists 0, (-1). split; [reflexivity|lia].
+    + exists (-1), 0.
+      assert (R : Z.rem (-1) ncols = -1).
+      { change (-1) with (- (1)). rewrite Z.rem_opp_l by lia. rewrite Z.rem_small by lia. auto. }
+      rewrite R. replace (-1 - -1) with 0 by lia. rewrite Z.quot_0_l by lia. split; auto. lia.
+  - destruct (getnxy_ok ncols c Hc ltac:(lia)) as (nx & ny & G & B1 & B2 & B3).
+    exists nx, ny. split; auto. split; [lia|]. split; [lia|].
+    assert (ny < nrows) by nia. lia.
+Qed.
+
+Lemma post3_call_gen {A S} (m : step A) (k : Z -> A -> step S) (P : Z -> A -> Prop) PN PB PR :
+  post3 m (P 0) (P 0) P -> (forall c a, P c a -> post3 (k c a) PN PB PR) ->
+  post3 (call m k) PN PB PR.
+Proof. intros H K; destruct m; simpl in *; auto; contradiction. Qed.
+
+Definition LIM : Z := 1073741824.      (* 2^30 rows / columns *)
+
+Lemma bd_step1_post ncols ngrid nval area mask buffer :
+  1 <= nval -> 0 < ncols <= LIM -> 0 <= ngrid <= LIM * LIM ->
+  Zlen area = nval -> Zlen mask = ngrid -> Zlen buffer = nval ->
+  (forall k, 0 <= k < nval -> 0 <= nth (Z.to_nat k) area 0 < ngrid) ->
+  let P := fun s => Zlen (b1_buf s) = nval /\ 1 <= b1_n s <= nval /\
+                    forall k, 0 <= k < b1_n s -> 0 <= nth (Z.to_nat k) (b1_buf s) 0 < ngrid in
+  post3 (bd_step1 ncols ngrid nval area mask buffer) P (fun _ => False) (fun _ s => P s).
+Proof.
+  intros Hn Hc Hg Ha Hm Hb Hr P. unfold bd_step1.
+  acc3. acc3.
+  pose (Inv := fun (i : Z) (s : bd1st) => Zlen (b1_buf s) = nval /\ 1 <= b1_n s <= i /\
+                 forall k, 0 <= k < b1_n s -> 0 <= nth (Z.to_nat k) (b1_buf s) 0 < ngrid).
+  eapply post3_weaken.
+  { apply (forZ_post3 Inv (fun _ => False) (fun _ s => P s)); [lia| |].
+    - unfold Inv; cbn. rewrite Zlen_upd. split; auto. split; [lia|].
+      intros k Hk. assert (k = 0) by lia. subst k.
+      rewrite nth_upd_same by (unfold Zlen in Hb; lia). apply (Hr 0); lia.
+    - intros i s Hi (I1 & I2 & I3). acc3.
+      set (cell := nth (Z.to_nat i) area 0). assert (Hcell := Hr i ltac:(lia)). fold cell in Hcell.
+      acc3.
+      destruct (negb (_ =? 1)).
+      { cbn. unfold P. split; [auto|split; [lia|auto]]. }
+      eapply (post3_sub _ _ _ (fun _ => True)).
+      + eapply post3_weaken.
+        { apply (forZ_inv3 (fun _ : Z => True) (fun _ _ => False)); auto.
+          intros k io Hk _.
+          assert (Hsh : - ncols <= nth (Z.to_nat k) [-1; 1; - ncols; ncols] 0 <= ncols).
+          { assert (Hk4 : k = 0 \/ k = 1 \/ k = 2 \/ k = 3) by lia.
+            destruct Hk4 as [->|[->|[->| ->]]]; simpl; lia. }
+          rewrite (rd_ok "shift" 0 _ k) by (cbn; lia). cbn [bindr].
+          set (sh := nth (Z.to_nat k) [-1; 1; - ncols; ncols] 0) in *.
+          rewrite chk64_ok' by (unfold MAX64, LIM in *; nia). cbn [bindr].
+          destruct ((0 <=? cell + sh) && (cell + sh <? ngrid)) eqn:E; [|cbn; auto].
+          zb. acc3. cbn. auto. }
+        all: cbn beta; auto; try (intros; contradiction).
+      + intros io _. destruct (io =? 0); [|cbn; unfold Inv; split; [auto|split; [lia|auto]]].
+        destruct (nval <? b1_n s) eqn:E; zb.
+        { cbn. unfold P. split; [auto|split; [lia|auto]]. }
+        acc3. cbn. unfold Inv; cbn. rewrite Zlen_upd. split; auto. split; [lia|].
+        intros k Hk. destruct (Z.eq_dec k (b1_n s)) as [->|Hne].
+        * rewrite nth_upd_same by (unfold Zlen in I1; lia). auto.
+        * rewrite nth_upd_other by lia. apply I3; lia. }
+  - cbn beta. intros s [(I1 & I2 & I3)|[]]. unfold P. split; [auto|split; [lia|auto]].
+  - intros ? [].
+  - auto.
+Qed.
+
+Section BoundaryProof.
+Context {T : Type} (N : NumOps T).
+
+(* (long long)((double)nbuffer * 0.8) is representable: true of binary64 and of the reals *)
+Hypothesis thr_ok : forall n, 0 <= n <= MAX64 -> exists z, bd_threshold N n = Ok z.
+
+Lemma bd_step2_safe nrows ncols distmax nval nbuffer buffer out :
+  0 < ncols <= LIM -> 0 <= nrows <= LIM -> 0 <= distmax <= LIM ->
+  1 <= nbuffer <= nval -> nval <= MAX64 -> Zlen buffer = nval -> Zlen out = nval ->
+  (forall k, 0 <= k < nbuffer -> 0 <= nth (Z.to_nat k) buffer 0 < nrows * ncols) ->
+  post3 (bd_step2 N true ncols distmax nval nbuffer buffer out)
+        (fun _ => True) (fun _ => True) (fun _ _ => True).
+Proof.
+  intros Hc Hr Hd Hnb Hnv Hb Ho Hrange. unfold bd_step2.
+  set (ntot := nrows * ncols) in *.
+  acc3. set (start := nth (Z.to_nat 0) buffer 0). assert (Hs := Hrange 0 ltac:(lia)). fold start in Hs.
+  destruct (getnxy_ok ncols start ltac:(lia) ltac:(lia)) as (sx & sy & G & _).
+  rewrite G. cbn [bindr]. acc3.
+  pose (Inv := fun (ibnd : Z) (s : bdst) =>
+     Zlen (bd_buf s) = nval /\ Zlen (bd_out s) = nval /\
+     (forall k, 0 <= k < nbuffer -> cgood ntot (nth (Z.to_nat k) (bd_buf s) 0)) /\
+     cgood ntot (bd_cell s) /\ cgood ntot (bd_next s) /\ -1 <= bd_knext s < nbuffer /\
+     0 <= bd_ibnd s).
+  pose (Q := fun s : bdst => Zlen (bd_out s) = nval /\ 0 <= bd_ibnd s).
+  apply post3_seq. eapply post3_weaken.
+  { apply (forZ_post3 Inv Q (fun _ _ => True)); [lia| |].
+    - unfold Inv; cbn. rewrite Zlen_upd. repeat split; auto; try lia.
+      + intros k Hk. destruct (Z.eq_dec k 0) as [->|Hne].
+        * rewrite nth_upd_same by (unfold Zlen in Hb; lia). left; auto.
+        * rewrite nth_upd_other by lia. right. apply Hrange; lia.
+      + right; auto.
+      + left; auto.
+    - intros ibnd s Hi (I1 & I2 & I3 & I4 & I5 & I6 & I7).
+      destruct (getnxy_cgood nrows ncols (bd_cell s) ltac:(lia) ltac:(lia) I4)
+        as (cx & cy & Gc & Bcx & Bcy).
+      rewrite Gc. cbn [bindr]. acc3.
+      rewrite chk64_ok' by (unfold MAX64, LIM in *; nia). cbn [bindr].
+      eapply (post3_sub _ _ _ (fun r => cgood ntot (bi_next r) /\ -1 <= bi_knext r < nbuffer)).
+      + eapply post3_weaken.
+        { apply (forZ_inv3 (fun r => cgood ntot (bi_next r) /\ -1 <= bi_knext r < nbuffer)
+                           (fun _ _ => False)); [cbn; auto|].
+          intros k r Hk (J1 & J2). acc3.
+          set (buf := nth (Z.to_nat k) (bd_buf s) 0). assert (Hbuf := I3 k Hk). fold buf in Hbuf.
+          destruct (buf <? 0); [cbn; auto|].
+          destruct (getnxy_cgood nrows ncols buf ltac:(lia) ltac:(lia) Hbuf)
+            as (bx & by_ & Gb & Bbx & Bby).
+          rewrite Gb. cbn [bindr].
+          rewrite chk64_ok' by (unfold MAX64, LIM in *; nia). cbn [bindr].
+          destruct ((_ <? bi_dmin r) && (0 <? _)); destruct (_ =? 1); cbn; auto; split; auto; lia. }
+        all: cbn beta; auto; try (intros; contradiction).
+      + intros r (J1 & J2).
+        destruct (thr_ok nbuffer ltac:(lia)) as (thr & Et).
+        rewrite Et. cbn [bindr].
+        match goal with |- context [if ?c then Brk _ else _] => destruct c end.
+        * cbn. unfold Q; cbn. rewrite Zlen_upd. split; auto; lia.
+        * cbn [andb].
+          destruct (0 <=? bi_knext r) eqn:E; zb; cbn [negb bindr].
+          -- acc3. cbn. unfold Inv; cbn. rewrite !Zlen_upd. repeat split; auto; try lia.
+             intros k Hk. destruct (Z.eq_dec k (bi_knext r)) as [->|Hne].
+             ++ rewrite nth_upd_same by (unfold Zlen in I1; lia). left; auto.
+             ++ rewrite nth_upd_other by lia. auto.
+          -- cbn. unfold Inv; cbn. rewrite !Zlen_upd. repeat split; auto; lia. }
+  2: intros ? []. 2: auto.
+  cbn beta. intros s Hs2.
+  assert (Hq : Q s) by (destruct Hs2 as [(I1 & I2 & _ & _ & _ & _ & I7)|Hq]; [split; auto|auto]).
+  destruct Hq as (Q1 & Q2).
+  destruct (nval - 1 <? bd_ibnd s) eqn:E; zb; acc3; cbn; auto.
+Qed.
+
+Lemma delineate_boundary_safe : forall nrows ncols nval area buffer mask out,
+  nrows <= LIM -> ncols <= LIM -> nval <= MAX64 ->
+  Zlen area = nval -> Zlen buffer = nval -> Zlen mask = nrows * ncols -> Zlen out = nval ->
+  safe (delineate_boundary N true nrows ncols nval area buffer mask out).
+Proof.
+  intros nrows ncols nval area buffer mask out Hr Hc Hnv Ha Hb Hm Ho.
+  unfold delineate_boundary.
+  destruct (nval <? 1) eqn:E1; [exact I|]. zb. cbn [andb].
+  destruct ((nrows <? 1) || (ncols <? 1)) eqn:E2; [exact I|]. zb.
+  rewrite chk64_ok' by (unfold MAX64, LIM in *; nia). cbn [bindr].
+  set (ngrid := nrows * ncols) in *.
+  set (sorted := zsort area).
+  assert (Hsl : Zlen sorted = nval) by (unfold sorted; rewrite Zlen_zsort; auto).
+  acc3. acc3.
+  destruct ((nth (Z.to_nat 0) sorted 0 <? 0) || (ngrid <=? nth (Z.to_nat (nval - 1)) sorted 0)) eqn:E3;
+    [exact I|]. zb.
+  assert (Hrange : forall k, 0 <= k < nval -> 0 <= nth (Z.to_nat k) sorted 0 < ngrid).
+  { intros k Hk.
+    assert (Hbt := sorted_between sorted (zsort_sorted area) (Z.to_nat k)
+                     ltac:(unfold Zlen in Hsl; lia)).
+    replace (Datatypes.length sorted - 1)%nat with (Z.to_nat (nval - 1)) in Hbt
+      by (unfold Zlen in Hsl; lia).
+    change (Z.to_nat 0) with O in *. lia. }
+  apply (post3_safe _ (fun _ => True) (fun _ => True) (fun _ _ => True)).
+  eapply post3_call_gen with (P := fun (_ : Z) s => Zlen (b1_buf s) = nval /\ 1 <= b1_n s <= nval /\
+          forall k, 0 <= k < b1_n s -> 0 <= nth (Z.to_nat k) (b1_buf s) 0 < ngrid).
+  { eapply post3_weaken;
+      [apply (bd_step1_post ncols ngrid nval sorted mask buffer); auto; unfold LIM in *; try lia; nia| | |].
+    - cbn beta. intros s Hs. exact Hs.
+    - intros ? [].
+    - cbn beta. intros c s Hs. exact Hs. }
+  cbn beta. intros c s1 (S1 & S2 & S3).
+  destruct (negb (c =? 0)); [exact I|].
+  eapply post3_call_gen with (P := fun _ _ => True).
+  { eapply post3_weaken;
+      [apply (bd_step2_safe nrows ncols (if ncols <? nrows then nrows else ncols) nval (b1_n s1)
+                (b1_buf s1) out); auto; unfold LIM in *; try lia| | |]; auto.
+    destruct (ncols <? nrows); lia. }
+  intros; exact I.
+Qed.
+
+End BoundaryProof.
+
+(* the threshold is representable over the reals *)
+Lemma RR_thr_ok : forall n, 0 <= n <= MAX64 -> exists z, bd_threshold RR n = Ok z.
+Proof.
+  intros n Hn. unfold bd_threshold, percmax, PERCMAX_NUM, PERCMAX_DEN. cbn.
+  set (x := (IZR n * (4 / 5))%R).
+  assert (Hx : (0 <= x <= IZR n)%R).
+  { unfold x. assert (0 <= IZR n)%R by (apply IZR_le; lia). lra. }
+  unfold R_trunc. destruct (Rle_dec 0 x) as [_|C]; [|lra].
+  destruct (base_Int_part x) as [B1 B2].
+  assert (0 <= Int_part x <= n).
+  { split.
+    - apply Z.lt_succ_r. apply lt_IZR. rewrite succ_IZR. lra.
+    - apply le_IZR. lra. }
+  unfold cast64, in_int64.
+  replace ((-9223372036854775808 <=? Int_part x) && (Int_part x <=? 9223372036854775807)) with true
+    by (symmetry; apply andb_true_intro; split; apply Z.leb_le; unfold MAX64 in *; lia).
+  eauto.
+Qed.
+
+Lemma delineate_boundary_safe_RR : forall nrows ncols nval area buffer mask out,
+  nrows <= LIM -> ncols <= LIM -> nval <= MAX64 ->
+  Zlen area = nval -> Zlen buffer = nval -> Zlen mask = nrows * ncols -> Zlen out = nval ->
+  safe (delineate_boundary RR true nrows ncols nval area buffer mask out).
+Proof. exact (delineate_boundary_safe RR RR_thr_ok). Qed.
+
+(* pinned kernel, one-cell area: buffer[-1] is written *)
+Lemma delineate_boundary_pinned_unsafe :
+  delineate_boundary F64 false 3 3 1 [4] [0] [0; 0; 0; 0; 1; 0; 0; 0; 0] [0]
+  = Fail (OOB "buffer" (-1)).
+Proof. vm_compute. reflexivity. Qed.
+
+(* pinned kernel, area cells outside the grid: the mask is indexed with them *)
+Lemma delineate_boundary_pinned_unsafe_cells :
+  delineate_boundary F64 false 2 2 2 [-2; -1] [0; 0] [1; 1; 1; 1] [0; 0]
+  = Fail (OOB "catchment_area_mask" (-1)).
+Proof. vm_compute. reflexivity. Qed.
